@@ -260,8 +260,12 @@ func (x *lc) dangers(d decoder, ref []byte) []danger {
 	}
 	var r []danger
 	hdr := x.header(&d)
+	type confirmation struct {
+		ok        bool
+		msg, site string
+	}
+	groups := map[string]confirmation{}
 	if !isJSONText(ref) {
-		confirmed := false
 		enc := func(f field, v uint64) []byte {
 			b := make([]byte, f.width)
 			putField(b, field{0, f.width}, v)
@@ -291,8 +295,15 @@ func (x *lc) dangers(d decoder, ref []byte) []danger {
 						dz.site = o2.Site
 					}
 				}
-				if !confirmed || dz.site == "" {
-					confirmed = true
+				// Confirmation by one real allocation above the limit, once per decoder that trusts the length (the
+				// panic site; fields without one are confirmed individually). A decoder that caps the length fails
+				// the confirmation: its fields are not findings, and their large values are executed like any other.
+				grp := dz.site
+				if grp == "" {
+					grp = fmt.Sprintf("field@%d/%d", o, w)
+				}
+				c, seen := groups[grp]
+				if !seen {
 					// smallest power of two whose extrapolated allocation exceeds twice the limit (the slope measured
 					// on the small probe includes fixed overheads)
 					v := uint64(probeLen)
@@ -300,19 +311,23 @@ func (x *lc) dangers(d decoder, ref []byte) []danger {
 						v <<= 1
 					}
 					o3 := runJob(hdr, x.corruptJob(d, o, enc(f, v), false))
-					if dz.site == "" { // no panic names the decoder that trusts this length: ask the heap profile
-						if dz.site = o3.AllocSite; o3.Fatal != "" && o3.FatalSite != "unknown" {
-							dz.site = o3.FatalSite
-						}
-					}
+					c.site = o3.AllocSite
 					switch {
-					case o3.Fatal != "":
-						dz.confirmed = fmt.Sprintf("confirmed: with the field set to 2^%d the process was killed (fatal error: %s)", bits.Len64(v)-1, o3.Fatal)
+					case o3.Fatal == "out-of-memory":
+						c.ok, c.site = true, o3.FatalSite
+						c.msg = fmt.Sprintf("confirmed: with the field at offset %d set to 2^%d the process was killed (fatal error: out of memory)", o, bits.Len64(v)-1)
 					case o3.Alloc > allocLimit(len(ref)):
-						dz.confirmed = fmt.Sprintf("confirmed: with the field set to 2^%d the decoder allocated %d MiB before returning err=%q", bits.Len64(v)-1, o3.Alloc>>20, o3.Err)
-					default:
-						dz.confirmed = fmt.Sprintf("NOT confirmed: with the field set to 2^%d the decoder allocated only %d MiB", bits.Len64(v)-1, o3.Alloc>>20)
+						c.ok = true
+						c.msg = fmt.Sprintf("confirmed: with the field at offset %d set to 2^%d the decoder allocated %d MiB before returning err=%q", o, bits.Len64(v)-1, o3.Alloc>>20, o3.Err)
 					}
+					groups[grp] = c
+				}
+				if !c.ok {
+					continue
+				}
+				dz.confirmed = c.msg
+				if dz.site == "" && c.site != "unknown" {
+					dz.site = c.site // no panic names the decoder that trusts this length: the heap profile does
 				}
 				r = append(r, dz)
 			}
